@@ -3,7 +3,9 @@
 Deciding method: (i) Coq theorem C01_close_closed about the set-level model of the generated loop (coq/Engine),
 under the per-program family obligation FamOK (property C16's instance obligations) and the per-rule-function obligation
 ram_matches_flat (coq/Ram: the emitted nested loops enumerate exactly the matches of their flat rule), both translated from the
-emitted text on this run; (ii) the verified
+emitted text on this run, and by a per-iteration lockstep correspondence: at every point where close_until evaluates its
+condition the private state of the implementation is judged in Coq to be isomorphic (handles fixed; partition, old and new rows,
+type sets, root weights) to the state of the weighted engine model run on the same history (checks/engine_tie.py); (ii) the verified
 closedness oracle of coq/Sem (closed_b sound AND complete for the declarative rule semantics) evaluated in
 Coq on the implementation's dump after the final close() of generated programs x fact sets x histories.
 """
@@ -100,3 +102,6 @@ def run(ctx):
     finally:
         shutil.rmtree(scratch, ignore_errors=True)
     ctx.obligation("oracle:closed_b on every final dump", done and not ctx.violations, "%d dumps judged in Coq" % stats["dumps"])
+    # per-iteration correspondence between the weighted engine model (the theorems of Props_Tie.v) and the emitted loop
+    import engine_tie
+    engine_tie.engine_tie(ctx, results, "C01", nprog=8 if quick else None, nhist=4 if quick else None, nmerge=4 if quick else None)
